@@ -200,6 +200,31 @@ def check(ctx, rng, kind, ptr, endian, align, compiled):
                         ctx.event("arithmetic_checked")
                 except Exception as e:  # noqa: BLE001
                     viol("arith", f"pointer-arithmetic-result-cannot-dereference:{type(e).__name__}", data=data, expr=name)
+        import operator as _op
+
+        a0 = int(p)
+        ops = [("+", _op.add, 0), ("-", _op.sub, 0), ("*", _op.mul, 1), ("//", _op.floordiv, 1), ("%", _op.mod, a0 + 1),
+               ("**", _op.pow, 1), ("<<", _op.lshift, 0), (">>", _op.rshift, 0), ("&", _op.and_, (1 << 64) - 1),
+               ("^", _op.xor, 0), ("|", _op.or_, 0)]
+        for name, fn, operand in ops:
+            ctx.evaluation((case["text"], tuple(sorted(cfgd.items())), data.hex(), "op", name))
+            try:
+                x = fn(p, operand)
+            except Exception as e:  # noqa: BLE001
+                viol("arith", f"pointer-operator-raises:{type(e).__name__}", data=data, expr=f"p {name} {operand}")
+                continue
+            if type(x) is not type(p) or int(x) != a0:
+                viol("arith", "pointer-operator-does-not-yield-a-pointer-of-the-same-type", data=data,
+                     expr=f"p {name} {operand}", got=repr(x))
+                continue
+            try:
+                if lib.nan_clean(lib.norm(x.dereference(), tgt)) != targets[0][1]:
+                    viol("arith", "pointer-operator-result-loses-the-stream", data=data, expr=f"p {name} {operand}")
+                else:
+                    ctx.event("operators_checked")
+            except Exception as e:  # noqa: BLE001
+                viol("arith", f"pointer-operator-result-cannot-dereference:{type(e).__name__}", data=data,
+                     expr=f"p {name} {operand}")
         try:
             nxt = (o.arr[0] + 0)
             far = p + 1
